@@ -7,11 +7,18 @@ struct Ctx<'a> {
     test: &'a mut dyn FnMut(&Trace) -> bool,
     used: u64,
     budget: u64,
+    /// wall-clock limit for the whole minimisation (candidates of a step-budget violation cost seconds each);
+    /// it only decides how small the reported trace gets, never a verdict
+    deadline: std::time::Instant,
 }
 
 impl Ctx<'_> {
     fn ok(&mut self, t: &Trace) -> bool {
         if self.used >= self.budget {
+            return false;
+        }
+        if std::time::Instant::now() >= self.deadline {
+            self.used = self.budget;
             return false;
         }
         self.used += 1;
@@ -91,6 +98,7 @@ pub fn minimise_with_budget(trace: &Trace, still_fails: &mut dyn FnMut(&Trace) -
         test: still_fails,
         used: 0,
         budget,
+        deadline: std::time::Instant::now() + std::time::Duration::from_secs(90),
     };
     let mut best = trace.clone();
     // merge adjacent Rx events first so byte-level shrinking sees whole sequences
